@@ -488,6 +488,7 @@ func (peer *peer) llgrRestartTimerStarted(family bgp.Family) {
 		if a.State.Family == family {
 			conf.AfiSafis[i].MpGracefulRestart.State.Running = false
 			conf.AfiSafis[i].LongLivedGracefulRestart.State.Running = true
+			conf.AfiSafis[i].LongLivedGracefulRestart.State.PeerRestartTimerExpired = false
 		}
 	}
 	peer.fsm.pConf.Update(&conf)
@@ -503,7 +504,7 @@ func (peer *peer) llgrRestartTimerExpired(family bgp.Family) bool {
 		if a.State.Family == family {
 			conf.AfiSafis[i].LongLivedGracefulRestart.State.PeerRestartTimerExpired = true
 		}
-		s := a.LongLivedGracefulRestart.State
+		s := conf.AfiSafis[i].LongLivedGracefulRestart.State
 		if s.Received && !s.PeerRestartTimerExpired {
 			all = false
 		}
